@@ -1,6 +1,7 @@
 package types
 
 import (
+	rtypes "github.com/rigochain/rigo-go/types"
 	bytes2 "github.com/rigochain/rigo-go/types/bytes"
 	"github.com/rigochain/rigo-go/types/xerrors"
 	abcitypes "github.com/tendermint/tendermint/abci/types"
@@ -65,6 +66,14 @@ func NewTrxContext(txbz []byte, height, btime int64, exec bool, cbfns ...NewTrxC
 	txctx.Sender = txctx.AcctHandler.FindAccount(tx.From, txctx.Exec)
 	if txctx.Sender == nil {
 		return nil, xerrors.ErrNotFoundAccount.Wrapf("address: %v", tx.From)
+	}
+	if len(tx.To) != rtypes.AddrSize {
+		// Ledger keys are the address padded to 32 bytes, so a receiver of a wrong length must never be
+		// looked up or created: the record would share its key with a well-formed 20-byte address and it
+		// would outlive this transaction, which is rejected by the address length check of the validation.
+		// Hand the validation a receiver object that is not stored in the ledger.
+		txctx.Receiver = NewAccount(tx.To)
+		return txctx, nil
 	}
 	// RG-91:  Also find the account object with the destination address 0x0.
 	txctx.Receiver = txctx.AcctHandler.FindOrNewAccount(tx.To, txctx.Exec)
